@@ -1484,17 +1484,28 @@ def detect_wc_close(src_dir):
     service = _find(tree, "HTTPChannel", "service")
     cont = _find(tree, "HTTPChannel", "send_continue")
     flush = _find(tree, "HTTPChannel", "_flush_some")
-    if None in (service, cont, flush):
-        raise ValueError("service / send_continue / _flush_some not found")
+    fexc = _find(tree, "HTTPChannel", "_flush_exception")
+    if None in (service, cont, flush, fexc):
+        raise ValueError("service / send_continue / _flush_some / _flush_exception not found")
     sc = calls(service, "send_continue")
-    fc = calls(cont, "_flush_some")
+    # the flush inside send_continue: self._flush_some(...) or self._flush_exception(self._flush_some, ...)
+    fc = [(c, flush) for c in calls(cont, "_flush_some")]
+    for c in calls(cont, "_flush_exception"):
+        if not (len(c.args) == 1 and isinstance(c.args[0], ast.Attribute) and c.args[0].attr == "_flush_some"):
+            raise ValueError("_flush_exception in send_continue is not applied to self._flush_some")
+        # _flush_exception hands its do_close on: `flush(do_close=do_close)`
+        inner_calls = [n for n in ast.walk(fexc) if isinstance(n, ast.Call) and isinstance(n.func, ast.Name) and n.func.id == "flush"]
+        if len(inner_calls) != 1 or not isinstance(kw_of(inner_calls[0], "do_close"), ast.Name):
+            raise ValueError("_flush_exception does not pass do_close on to flush()")
+        fc.append((c, fexc))
     if len(sc) != 1 or len(fc) != 1:
-        raise ValueError("expected one send_continue() call in service and one _flush_some() call in send_continue")
-    if sc[0].args or fc[0].args:
+        raise ValueError("expected one send_continue() call in service and one flush call in send_continue")
+    call, callee = fc[0]
+    if sc[0].args or (callee is flush and call.args):
         raise ValueError("positional arguments in the send_continue / _flush_some calls")
-    inner = kw_of(fc[0], "do_close")
+    inner = kw_of(call, "do_close")
     if inner is None:
-        v = default_of(flush, "do_close")
+        v = default_of(callee, "do_close")
     elif isinstance(inner, ast.Constant) and isinstance(inner.value, bool):
         v = inner.value
     elif isinstance(inner, ast.Name) and inner.id == "do_close":
@@ -1506,14 +1517,14 @@ def detect_wc_close(src_dir):
         else:
             raise ValueError("do_close passed by service() is not a constant")
     else:
-        raise ValueError("do_close passed to _flush_some is neither a constant nor the parameter")
+        raise ValueError("do_close passed to the flush is neither a constant nor the parameter")
     if not isinstance(v, bool):
         raise ValueError("cannot determine do_close (%r)" % (v,))
     return v
 
 
 # the signature of the modelled methods on the tree the model was written against (see shape_signature;
-# /repo at 7fa6a60, i.e. with the repairs of F17, both halves of F18, F22 and C12's three); the instructions of Model/ChanFault.v
+# /repo at 48f7fa0 (frozen), i.e. with all the repairs of the rounds up to /verif/_work/FINAL_ROUND.md); the instructions of Model/ChanFault.v
 # transliterate exactly these statements
 EXPECTED_SHAPE = {'channel.py:HTTPChannel.__init__': ['w:outbufs', 'w:sendbuf_len call:getsockopt()', 'n:map call:__init__()', 'w:connected const:True', 'w:requests'],
  'channel.py:HTTPChannel._flush_exception': ['if(){',
@@ -1677,7 +1688,7 @@ EXPECTED_SHAPE = {'channel.py:HTTPChannel.__init__': ['w:outbufs', 'w:sendbuf_le
                                           'w:current_outbuf_count',
                                           'w:total_outbufs_len',
                                           'w:sent_continue const:True',
-                                          'call:_flush_some(do_close=do_close)',
+                                          'r:_flush_some call:_flush_exception(do_close=do_close)',
                                           '}'],
  'channel.py:HTTPChannel.service': ['r:requests',
                                     'if(r:error){',
@@ -1692,7 +1703,7 @@ EXPECTED_SHAPE = {'channel.py:HTTPChannel.__init__': ['w:outbufs', 'w:sendbuf_le
                                     '}except(ClientDisconnected){',
                                     'r:request',
                                     'w:close_on_finish const:True',
-                                    '}except(Exception){',
+                                    '}except(BaseException){',
                                     'r:request',
                                     'if(not){',
                                     'if(){',
